@@ -264,7 +264,11 @@ func Generate(r *rng.R, g GenConfig) *History {
 				h.Steps = append(h.Steps, Step{Op: "Sl", C: c})
 			}
 		case 10:
-			h.Steps = append(h.Steps, Step{Op: "Rt", C: c})
+			if r.Chance(1, 2) {
+				h.Steps = append(h.Steps, Step{Op: "Rf", C: c})
+			} else {
+				h.Steps = append(h.Steps, Step{Op: "Rt", C: c})
+			}
 		case 8:
 			h.Steps = append(h.Steps, Step{Op: "X", C: c})
 		case 7:
